@@ -11,7 +11,8 @@ PID = "C04"
 RULE = ("base BICs (8 and 11 characters; min / max / distinct fillers, digits in the party prefix, "
         "registry BICs, one seeded) x {every position x every character of W substituted / inserted, "
         "every position deleted, every prefix, extension to 14 by 0^n / A^n, country field replaced "
-        "by all 1296 alphanumeric pairs (includes the 676 letter pairs) and W2 pairs}; thorough adds "
+        "by all 1296 alphanumeric pairs (includes the 676 letter pairs) and W2 pairs, one character in "
+        "front and one behind at once (all pairs of 31 quote / bracket / separator characters)}; thorough adds "
         "all pairs of positions x W2 x W2 and positions 9-11 x W x W2. Each text through BIC(t), "
         "BIC(t, enforce_swift_compliance=True), BIC(t, allow_invalid=True).validate(True) and "
         ".is_valid; verdicts compared with the reference grammar R-BIC. distinct = distinct texts "
@@ -79,6 +80,7 @@ def gen(base: str, tier: str, W):
             yield ("country-field-w2", base[:4] + a + b + base[6:])
     yield ("all-lower", base.lower())
     yield from families.token_overlays(base)
+    yield from families.wrapped(base)
     if tier == "thorough":
         yield from families.double_subst(base)
         if len(base) == 11:
